@@ -40,9 +40,19 @@ class Lock:
         fcntl.flock(self.f, fcntl.LOCK_UN)
         self.f.close()
 
-def run(cmd, cwd=None, env=None, timeout=None, input=None):
+def _big_stack():
+    """coqc parses and type-checks the byte lists of whole files recursively: give it the largest stack allowed"""
+    import resource
+    try:
+        soft, hard = resource.getrlimit(resource.RLIMIT_STACK)
+        resource.setrlimit(resource.RLIMIT_STACK, (hard, hard))
+    except Exception:
+        pass
+
+def run(cmd, cwd=None, env=None, timeout=None, input=None, big_stack=False):
     return subprocess.run(cmd, cwd=cwd, env=env, timeout=timeout, input=input,
-                          stdout=subprocess.PIPE, stderr=subprocess.STDOUT, text=True)
+                          stdout=subprocess.PIPE, stderr=subprocess.STDOUT, text=True,
+                          preexec_fn=_big_stack if big_stack else None)
 
 # ---------------------------------------------------------------- build steps
 
@@ -131,7 +141,7 @@ def eval_model(outdir):
     """Evaluate every cases_<k>.v with coqc (vm_compute inside the assistant)."""
     shards = sorted(glob.glob(os.path.join(outdir, "cases_*.v")))
     def one(path):
-        r = run(["timeout", "1500", "coqc", "-Q", COQ, "Avro", path])
+        r = run(["timeout", "1500", "coqc", "-Q", COQ, "Avro", path], big_stack=True)
         return path, r.returncode, r.stdout
     bad, errors = [], []
     with ThreadPoolExecutor(max_workers=16) as ex:
